@@ -25,7 +25,10 @@ def _wrap(pre, leaf):
 # leaves whose content depends on the column arithmetic
 _TABLEAF = ["```\n\tcode\n  x\n```", "\tcode\n\t\tmore", "~~~\n \ty\n~~~"]
 _P = [p for p in dict.fromkeys(PRE) if p]
-FIXED = [_wrap(a + b, lf) for lf in _TABLEAF for a in [""] + _P for b in _P]
+# ordered markers whose digits are not the canonical spelling of their value: info is the digits written
+_ORDERED = ["007. james\n008. bond\n", "01) a\n02) b\n", "000000003. z\n", "> 00. a\n> 01. b\n", "- 010. x\n  011. y\n",
+            "1. a\n\n   09. inner\n   10. more\n", "0. zero\n1. one\n", "text\n\n0001) only\n"]
+FIXED = _ORDERED + [_wrap(a + b, lf) for lf in _TABLEAF for a in [""] + _P for b in _P]
 _state = {"i": 0}
 
 
